@@ -27,8 +27,8 @@ KSmall == {0, 1, 4, 80}      \* 80 periods of 5 min at 208 V: force_feasible cap
 KMid == {0, 1, 2, 12, 13}
 KAll == {0, 1, 2, 12, 13, 80, 100, 288}
 \* 0.05 0.5 3.3 7.9 14.2 50 kWh in W*min
-EnergiesSmall == {30000, 474000, 3000000}
-EnergiesAll == {3000, 30000, 198000, 474000, 852000, 3000000}
+EnergiesSmall == {0, 30000, 474000, 3000000}      \* (0: a claimed session that received nothing)
+EnergiesAll == {0, 3000, 30000, 198000, 474000, 852000, 3000000}
 VoltsOne == {208}
 VoltsAll == {208, 240}
 PowersFit == {0}
